@@ -171,7 +171,7 @@ def corrupt_reg(rng, ir, insts, mx, outs, ands):
     ir, insts, outs = list(ir), list(insts), list(outs)
     what = rng.choice(["max0", "max_minus", "in_party", "in_index", "in_pos", "in_late", "read_unwritten",
                        "out_unwritten", "out_ge_max", "inst_out_ge_max", "op_ge_max", "no_out", "zero_in",
-                       "no_insts", "huge", "in_party_eq", "in_index_eq"])
+                       "no_insts", "huge", "in_party_eq", "in_index_eq", "in_empty_party", "in_empty_party"])
     written = set(o for o, _ in insts)
     unwritten = [r for r in range(mx) if r not in written]
     if what == "max0":
@@ -181,6 +181,16 @@ def corrupt_reg(rng, ir, insts, mx, outs, ands):
             outs = [0]
     elif what == "max_minus":
         mx = max(0, max(written | {0}) - rng.randint(0, 1))
+    elif what == "in_empty_party":
+        # an Input instruction naming a ZERO-SIZE party with index 0 (the party is added next to the real ones)
+        ks = [k for k, (_, op) in enumerate(insts) if op[0] == "i"]
+        if ks:
+            k = rng.choice(ks)
+            o, op = insts[k]
+            pos = rng.randint(0, len(ir))
+            ir.insert(pos, 0)
+            insts = [(oo, (("i", pp[1] + (1 if pp[1] >= pos else 0), pp[2]) if pp[0] == "i" else pp)) for oo, pp in insts]
+            insts[k] = (o, ("i", pos, 0))
     elif what in ("in_party", "in_index", "in_party_eq", "in_index_eq", "in_pos"):
         ks = [k for k, (_, op) in enumerate(insts) if op[0] == "i"]
         if ks:
